@@ -130,7 +130,9 @@ def run(shard, rec, tier, seed):
     # the generator's roots are spelled absolutely, as '.', or relative to the working directory in turn
     spelling = ("absolute", "dot", "absolute", "relative")[ti % 4]
     rec.seen("root-spellings", spelling)
-    st, ok, err, out = stage.full(files, do_import=False, spelling=spelling)
+    st, ok, err, out = stage.full(files, do_import=False, spelling=spelling, stale_output=(ti % 2 == 0))
+    if ti % 2 == 0:
+        rec.count("trees-generated-over-stale-output")
     if not ok:
         rec.count("base-spec-rejected-by-generator")
         return
